@@ -686,6 +686,14 @@ func (r *runner) resolveCompletedTasks(ctx context.Context, completedTasks []*ta
 				if _, ok := writeChannelValues[next]; !ok {
 					writeChannelValues[next] = make(map[string]any)
 				}
+				if _, dup := writeChannelValues[next][t.nodeKey]; dup {
+					// two branches of this node selected the same successor: it receives the value once; the
+					// surplus copy of a stream has to be closed or its source is never released
+					if sr, ok := vs[i].(streamReader); ok {
+						sr.close()
+					}
+					continue
+				}
 				writeChannelValues[next][t.nodeKey] = vs[i]
 			}
 		}
